@@ -52,13 +52,39 @@ def check_c03(ctx):
          "TLC trace validation against SqlModel; SqlModel itself is not explored as a state space"])
 
 
+def restarts(ctx):
+    """C07 "... and after a restart": file-backed histories with clean and crash-style restarts, a rolled-back
+    transaction right before the stop, index kinds skip list, B-tree and hash; the full probe battery after every
+    restart."""
+    import shutil
+    tr = os.path.join(ctx.work, "c07-restarts.ndjson")
+    scratch = "/dev/shm/verif-C07r-%d" % os.getpid()
+    shutil.rmtree(scratch, ignore_errors=True)
+    try:
+        vlib.vdrive(ctx, ["sql", "c09", tr, 1200 if ctx.tier == "thorough" else 80, scratch, "C07"], timeout=3000, ok_codes=(0, 3))
+    finally:
+        shutil.rmtree(scratch, ignore_errors=True)
+    res = vlib.validate(ctx, FAM, "SqlModelTrace", "Trace.cfg", tr, name="val-c07-restarts", timeout=3400)
+    judge(ctx, res, tr, "index agreement after restarts")
+    c = count_events(tr)
+    kinds = collections.Counter(e.get("kind") for e in vlib.read_ndjson(tr) if e["ev"] == "IdxPoint")
+    for k in ("Shutdown", "Crash", "Reopen", "IdxPoint"):
+        if c[k] == 0:
+            raise Inconclusive("vacuous: no %s events in the restart histories" % k)
+    for k in ("skiplist", "btree", "hash"):
+        if kinds[k] == 0:
+            raise Inconclusive("vacuous: no %s index probed after a restart" % k)
+    return dict(events=dict(c), index_probes_by_kind=dict(kinds))
+
+
 @register("C07")
 def check_c07(ctx):
     tr, c, kinds, ia = run(ctx, "C07", 2500 if ctx.tier == "thorough" else 150)
+    rs = restarts(ctx)
     vlib.write_evidence(ctx, "model_checking", dict(
         states=ctx.states, transitions=ctx.transitions, traces_validated_against_impl=ctx.traces,
         samples=ctx.samples, exhaustive=False, events=dict(c), index_probes_by_kind=dict(kinds),
-        plans=dict(plan_kinds(tr).most_common(10)), events_validated=ctx.events),
+        plans=dict(plan_kinds(tr).most_common(10)), events_validated=ctx.events, restart_histories=rs),
         ["quiescent points only (no transaction in progress)",
-         "index kinds: skip list and B-tree; hash and unique skip list not exercised; restarts are covered by C09/C10's probe batteries",
+         "index kinds: skip list, B-tree and (in the restart histories) hash. The hash kind is reachable through the catalog API only: its UpdateEntry panics 'not implemented yet' and the optimizer plans ordered range scans over it, which it does not provide; so tables with a hash index get no UPDATE and no predicate on the hash-indexed column - the hash index is exercised by inserts, deletes, rollbacks, restarts and point lookups through the index API. The unique skip list is exercised at container level only (C17).",
          "TLC trace validation against SqlModel"])
